@@ -12,6 +12,7 @@ traversal `traverse` (QmcModel/ClusterExact.lean).
 -/
 import QmcProofs.LawCluster
 import QmcProofs.ClusterTraverse
+import QmcProofs.ClusterNav
 
 namespace Qmc.Law
 open Qmc
@@ -60,28 +61,31 @@ theorem findConstantOp_some (sk : Skel) (cp : Nat) (h : findConstantOp sk = some
     | none => rw [hsk] at h1; simp at h1
     | some o => rw [hsk] at h1; exact ⟨o, rfl, by simpa using h1⟩
 
+/-- the start state of `traverse` -/
+def trav0 (n cp : Nat) : Trav :=
+  { bin := Array.replicate n none, bout := Array.replicate n none, frontier := [(cp, false), (cp, true)] }
+
 /-- the traversal of a skeleton whose tables are `NavGraphOK` ends in a state satisfying the invariant -/
 theorem traverse_outInv (sk : Skel) (h : NavGraphOK sk) (cp : Nat) (hcp : findConstantOp sk = some cp) :
     OutInv (mkNav sk) (travLoop (mkNav sk) (4 * ((mkNav sk).nlegs + 8) * ((mkNav sk).nlegs + 8))
       (4 * ((mkNav sk).nlegs + 8) * ((mkNav sk).nlegs + 8))
-      { bin := Array.replicate (mkNav sk).ops.size none, bout := Array.replicate (mkNav sk).ops.size none,
-        frontier := [(cp, false), (cp, true)] }) := by
+      (trav0 (mkNav sk).ops.size cp)) := by
   obtain ⟨hlt, o, ho, hoe⟩ := findConstantOp_some sk cp hcp
   have hN := h.spec
   have hp : cp < (mkNav sk).ops.size := by rw [h.size]; exact hlt
   have hed : (mkNav sk).isEdgeAt cp = true := by rw [h.edgeAt cp o ho]; exact hoe
   have hnv : 0 < (mkNav sk).nvAt cp := by rw [hN.edge1 cp hed]; exact Nat.one_pos
   generalize hnav : mkNav sk = nav at *
-  have hlab0 : ∀ q, ({ bin := Array.replicate nav.ops.size none, bout := Array.replicate nav.ops.size none,
-      frontier := [(cp, false), (cp, true)] } : Trav).lab q = none := by
+  have hlab0 : ∀ q, (trav0 nav.ops.size cp).lab q = none := by
     intro q
-    unfold Trav.lab
+    unfold Trav.lab trav0
     split <;> exact getElem!_replicate_none _ _
-  have hu0 : OutInv nav { bin := Array.replicate nav.ops.size none, bout := Array.replicate nav.ops.size none,
-      frontier := [(cp, false), (cp, true)] } :=
-    ⟨by simp, by simp, rfl, fun q c' hq => by rw [hlab0] at hq; cases hq,
-      fun x _ c' hq => by rw [hlab0] at hq; cases hq, fun p _ _ _ => by rw [hlab0, hlab0],
-      fun i hi => by simp at hi⟩
+  have hu0 : OutInv nav (trav0 nav.ops.size cp) := by
+    refine ⟨by simp [trav0], by simp [trav0], rfl, ?_, ?_, ?_, ?_⟩
+    · intro q c' hq; rw [hlab0] at hq; cases hq
+    · intro x _ c' hq; rw [hlab0] at hq; cases hq
+    · intro p _ _ _; rw [hlab0, hlab0]
+    · intro i hi; simp [trav0] at hi
   have hF := fuel_bound nav.nlegs
   obtain ⟨F, hFeq⟩ : ∃ F, 4 * (nav.nlegs + 8) * (nav.nlegs + 8) = F + 1 := ⟨4 * (nav.nlegs + 8) * (nav.nlegs + 8) - 1, by omega⟩
   have hef : 2 * nav.nlegs + 1 ≤ 4 * (nav.nlegs + 8) * (nav.nlegs + 8) := by omega
@@ -91,14 +95,11 @@ theorem traverse_outInv (sk : Skel) (h : NavGraphOK sk) (cp : Nat) (hcp : findCo
     (fun _ => hlab0 _) (fun hb => by rw [hlab0] at hb; simp at hb) (fun e he => Or.inr (by simpa using he))
   rw [heq]
   refine travLoop_ok hN _ hef F t'' hu'' hG'' ?_
-  have hpsi0 : Psi nav { bin := Array.replicate nav.ops.size none, bout := Array.replicate nav.ops.size none,
-      frontier := [(cp, false), (cp, true)] } ≤ 2 + nav.nlegs + 5 * nav.nlegs := by
+  have hpsi0 : Psi nav (trav0 nav.ops.size cp) ≤ 2 + nav.nlegs + 5 * nav.nlegs := by
     unfold Psi
-    have := pend_le_nlegs hN ({ bin := Array.replicate nav.ops.size none, bout := Array.replicate nav.ops.size none,
-      frontier := [(cp, false), (cp, true)] } : Trav)
-    have := unl_le_nlegs hN ({ bin := Array.replicate nav.ops.size none, bout := Array.replicate nav.ops.size none,
-      frontier := [(cp, false), (cp, true)] } : Trav)
-    simp only [List.length_cons, List.length_nil]; omega
+    have := pend_le_nlegs hN (trav0 nav.ops.size cp)
+    have := unl_le_nlegs hN (trav0 nav.ops.size cp)
+    simp only [trav0, List.length_cons, List.length_nil] at *; omega
   rcases hm with h' | h'
   · rw [hlab0] at h'; simp at h'
   · omega
@@ -114,16 +115,12 @@ theorem travOK_of_navGraphOK (s : Slots) (hn : NodupVars s) (h : NavGraphOK (ske
       have htr : (traverse (skeleton s)).bad = (travLoop (mkNav (skeleton s))
             (4 * ((mkNav (skeleton s)).nlegs + 8) * ((mkNav (skeleton s)).nlegs + 8))
             (4 * ((mkNav (skeleton s)).nlegs + 8) * ((mkNav (skeleton s)).nlegs + 8))
-            { bin := Array.replicate (mkNav (skeleton s)).ops.size none,
-              bout := Array.replicate (mkNav (skeleton s)).ops.size none,
-              frontier := [(cp, false), (cp, true)] }).bad ∧
+            (trav0 (mkNav (skeleton s)).ops.size cp)).bad ∧
           (traverse (skeleton s)).reps = (travLoop (mkNav (skeleton s))
             (4 * ((mkNav (skeleton s)).nlegs + 8) * ((mkNav (skeleton s)).nlegs + 8))
             (4 * ((mkNav (skeleton s)).nlegs + 8) * ((mkNav (skeleton s)).nlegs + 8))
-            { bin := Array.replicate (mkNav (skeleton s)).ops.size none,
-              bout := Array.replicate (mkNav (skeleton s)).ops.size none,
-              frontier := [(cp, false), (cp, true)] }).reps.toList := by
-        simp [traverse, h0, hcp]
+            (trav0 (mkNav (skeleton s)).ops.size cp)).reps.toList := by
+        simp [traverse, h0, hcp, trav0]
       generalize (travLoop (mkNav (skeleton s)) _ _ _) = r at hout htr
       refine ⟨by rw [htr.1]; exact hout.notBad, ?_⟩
       rw [htr.2]
@@ -163,5 +160,121 @@ theorem travOK_of_navGraphOK (s : Slots) (hn : NodupVars s) (h : NavGraphOK (ske
       have := Conn.const (fun id => r.lab (legOf id).side) hconst hconn
       simp only [c2, d2, a4, b4, Option.some.injEq] at this
       exact Fin.ext this
+
+/-! ### the tables of every well-formed skeleton are `NavGraphOK` -/
+
+theorem mkNav_isEdgeAt (sk : Skel) (p : Nat) : (mkNav sk).isEdgeAt p = edgeAtSk sk p := by
+  rw [mkNav_eq]; rfl
+
+theorem mkNav_off (sk : Skel) (hnd : SkNodup sk) (p : Nat) (hp : p < sk.length) : (mkNav sk).off[p]! = offOf sk p := by
+  have := (navMain_inv sk hnd sk.length (Nat.le_refl _)).2.2.2 p hp
+  rw [mkNav_eq]; exact this
+
+theorem navGraphOK (sk : Skel) (hnd : SkNodup sk) (hpos : SkPos sk) : NavGraphOK sk := by
+  have hspec := mkNav_navSpec sk hnd hpos
+  refine ⟨hspec, mkNav_size sk, ?_, legOfId sk, ?_, ?_⟩
+  · intro p o ho
+    rw [mkNav_isEdgeAt]
+    simp only [edgeAtSk, toArray_getElem! sk p _ ho]
+  · intro e he
+    rcases legGraph_edges_nav sk hnd e he with ⟨P, j, hP, hed, hnv, hj, rfl⟩ | ⟨a, ha, rfl⟩
+    · left
+      have h0 := legOfId_spec sk P 0 (by omega)
+      have hj' := legOfId_spec sk P j hj
+      simp only [Nat.add_zero] at h0
+      refine ⟨?_, ?_, ?_, ?_⟩
+      · rw [h0, hj']; split <;> split <;> rfl
+      · rw [h0, mkNav_isEdgeAt]; split <;> exact hed
+      · rw [h0, mkNav_size]; split <;> exact hP
+      · rw [h0, mkNav_nvAt]; split <;> exact hnv
+    · right
+      obtain ⟨⟨hbv, hinv⟩, -⟩ := navClose_final sk hnd a ha
+      rw [legOfId_out sk _ hbv.2, legOfId_in sk a ha.2]
+      refine ⟨(mkNav_valid sk _).mpr hbv, ?_⟩
+      rw [mkNav_partner]
+      simp only [Bool.not_true, Bool.false_eq_true, if_false]
+      rw [hinv]
+  · intro q hq hnv
+    rw [mkNav_size] at hq
+    rw [mkNav_nvAt] at hnv
+    have hoff : (mkNav sk).sideLeg q = offOf sk q.1 + (if q.2 then nvOf sk.toArray q.1 else 0) := by
+      unfold Nav.sideLeg
+      rw [mkNav_off sk hnd q.1 hq, mkNav_nvAt]
+    have hnl : (legGraph sk).nlegs = offOf sk sk.length := by
+      have := (sim_main sk hnd sk.length (Nat.le_refl _)).2
+      have hscan : scanP sk sk.length = sk.foldl Scan.step {} := by unfold scanP; rw [List.take_length]
+      rw [hscan] at this
+      exact this
+    rw [hoff, hnl]
+    have hmono := offOf_mono sk (show q.1 + 1 ≤ sk.length by omega)
+    rw [offOf_succ] at hmono
+    obtain ⟨q1, q2⟩ := q
+    cases q2
+    · simp only [Bool.false_eq_true, if_false, Nat.add_zero]
+      refine ⟨by simp only at hmono hnv; omega, ?_⟩
+      have := legOfId_spec sk q1 0 (by simp only at hnv; omega)
+      simp only [Nat.add_zero] at this
+      rw [this, if_pos hnv]; rfl
+    · simp only [if_true]
+      refine ⟨by simp only at hmono hnv; omega, ?_⟩
+      rw [legOfId_spec sk q1 _ (by simp only at hnv; omega), if_neg (by omega)]
+      simp [TLeg.side]
+
+theorem mem_opsOf_of_some : ∀ {s : Slots} {o : Op}, some o ∈ s → o ∈ opsOf s
+  | [], _, h => by simp at h
+  | none :: t, o, h => by
+    simp only [opsOf]; exact mem_opsOf_of_some (by simpa using h)
+  | some o' :: t, o, h => by
+    simp only [List.mem_cons, Option.some.injEq] at h
+    simp only [opsOf, List.mem_cons]
+    rcases h with h | h
+    · exact Or.inl h
+    · exact Or.inr (mem_opsOf_of_some h)
+
+/-- **`TravOK` for every well-formed skeleton**: no op lists a variable twice, every op has a variable -/
+theorem travOK (s : Slots) (hn : NodupVars s) (hpos : ∀ o ∈ opsOf s, o.vars ≠ []) : TravOK (skeleton s) := by
+  refine travOK_of_navGraphOK s hn (navGraphOK (skeleton s) ?_ ?_)
+  · intro o ho
+    simp only [skeleton, List.mem_map] at ho
+    obtain ⟨x, hx, hxo⟩ := ho
+    cases x with
+    | none => cases hxo
+    | some op =>
+      simp only [Option.map_some, Option.some.injEq] at hxo
+      rw [← hxo]
+      exact hn op (mem_opsOf_of_some hx)
+  · intro o ho
+    simp only [skeleton, List.mem_map] at ho
+    obtain ⟨x, hx, hxo⟩ := ho
+    cases x with
+    | none => cases hxo
+    | some op =>
+      simp only [Option.map_some, Option.some.injEq] at hxo
+      rw [← hxo]
+      exact hpos op (mem_opsOf_of_some hx)
+
+/-! ### on the configuration spaces of the Law theorems -/
+
+/-- every bond of the Hamiltonian acts on at least one variable (a zero-variable bond makes the real traversal
+loop forever as soon as a constant single-site bond exists; `VarsOK` does not exclude it) -/
+def VarsPos (H : Ham) : Prop := ∀ b, b < H.nbonds → H.vars b ≠ []
+
+/-- **the traversal of every configuration of `cfgSpace` is `TravOK`** -/
+theorem cfgSpace_travOK {H : Ham} {N L : Nat} (hV : Kernel.VarsOK H N) (hp : VarsPos H) {c : Config}
+    (hc : c ∈ Kernel.cfgSpace H N L) : TravOK (skeleton c.slots) := by
+  refine travOK c.slots (Kernel.cfgSpace_shapeOk hV hc).2 (fun o ho => ?_)
+  obtain ⟨h1, h2, -⟩ := (Kernel.mem_cfgSpace.mp hc).2.2 o (Kernel.some_mem_of_mem_opsOf ho)
+  rw [h2]; exact hp _ h1
+
+theorem isingSpec_varsPos (s : IsingSpec) : VarsPos s.ham := by
+  intro b _
+  simp only [IsingSpec.ham]
+  by_cases h1 : b < s.nedges
+  · rw [if_pos h1]
+    unfold IsingSpec.edgeVars
+    have : b < s.edges.length := h1
+    rw [List.getElem?_eq_getElem this]
+    simp
+  · rw [if_neg h1]; split <;> simp
 
 end Qmc.Law
